@@ -9,9 +9,9 @@ IoFaultRead.lean): the refill of the winner's buffer, the drop of an input on io
 (`winner = -1; count--`), the `return n, err` of every other error, the `count == 0` -> io.EOF exit.
 The tournament tree is the C09 transliteration (`Merge.playInitialGames` merge.go:973-986,
 `Merge.replayLoop` merge.go:1004-1022) run on the head keys of the buffers (`hv`).
-Run mode (merge.go:898-933, `streak >= 3`) is replaced by the row-by-row loop it optimises (same
-rows, same call boundaries on sorted inputs: C09's `MK` model proves the output equivalence, the L2
-sub-check `kway` compares every call on sorted scripted sources).  An index out of range
+Run mode (merge.go:898-933, `streak >= 3`: `runBound`, `runLength`, the bulk emission and
+`advance`) is mirrored too (`runEmit`, with C09's `Merge.runBoundLoop` / `Merge.runLength`), so the
+mirror follows the code on unsorted inputs as well.  An index out of range
 (`m.buffers[m.winner]` with `winner = -1` while `count != 0`) is the result `panic`.
 SPEC: `Rd.Src` (the scripted failing source of IoFaultRead.lean).
 
@@ -29,17 +29,18 @@ def hv (b : Buf) : Merge.Buf :=
 def dsrc : Src := ⟨[], none, false, false⟩
 def dbuf : Buf := Buf.fresh dsrc
 
-/-- MIRROR `mergedRowReader` (merge.go:807-816) without `streak` (run mode is not mirrored) -/
+/-- MIRROR `mergedRowReader` (merge.go:807-816) -/
 structure MK where
   bufs : List Buf
   losers : List Int
   count : Nat
   winner : Int
   winnerLeaf : Int
+  streak : Nat
   initialized : Bool
   deriving DecidableEq
 
-def MK.new (srcs : List Src) : MK := ⟨srcs.map Buf.fresh, [], 0, 0, 0, false⟩
+def MK.new (srcs : List Src) : MK := ⟨srcs.map Buf.fresh, [], 0, 0, 0, 0, false⟩
 
 /-- number of entries that name an input (`>= 0`) -/
 def nn (l : List Int) : Nat := (l.filter (fun x => decide (0 ≤ x))).length
@@ -63,7 +64,7 @@ def MK.init (st : MK) : Res × MK :=
   else if nn r.2.2 > 0 then
     let g := Merge.playInitialGames (r.2.1.map hv) r.2.2 k 0 (List.replicate k 0)
     (.nil, { bufs := r.2.1, losers := g.2, count := nn r.2.2, winner := g.1, winnerLeaf := (k : Int) + g.1,
-             initialized := true })
+             streak := st.streak, initialized := true })
   else
     (.nil, { st with bufs := r.2.1, losers := List.replicate k 0, count := 0, initialized := true })
 
@@ -74,6 +75,33 @@ def MK.replay (st : MK) : MK :=
 
 def MK.cur (st : MK) : Buf := st.bufs.getD st.winner.toNat dbuf
 def MK.setBuf (st : MK) (c : Buf) : MK := { st with bufs := st.bufs.set st.winner.toNat c }
+
+def toRow (x : Int) : Merge.Row := ⟨x, 0, 0⟩
+
+/-- MIRROR `runBound` (merge.go:957-968) -/
+def MK.runBound (st : MK) : Option Merge.Row :=
+  Merge.runBoundLoop (st.bufs.map hv) st.losers st.bufs.length ((st.winnerLeaf.toNat - 1) / 2) none
+
+/-- MIRROR merge.go:915-918: the length of the run inside the (truncated) window -/
+def runOf (bound : Option Merge.Row) (window : List Int) : Nat :=
+  match bound with
+  | some b => Merge.runLength (window.map toRow) b 0
+  | none => window.length
+
+/-- MIRROR of the bulk emission loop of run mode (merge.go:910-929) on the winner's buffer `c`,
+`m = len(rows) - n`. Result: the rows, the buffer, `true` = the function returned (`!c.advance(run)`). -/
+def runEmit (bound : Option Merge.Row) : Nat → Nat → Buf → List Int × Buf × Bool
+  | 0, _, c => ([], c, false)
+  | f + 1, m, c =>
+    if m = 0 then ([], c, false) else
+    let run := runOf bound (c.win.take m)
+    if c.win.drop run = [] then ((c.win.take m).take run, { c with win := c.win.drop run }, true)
+    else if run < (c.win.take m).length then ((c.win.take m).take run, { c with win := c.win.drop run }, false)
+    else
+      let r := runEmit bound f (m - run) { c with win := c.win.drop run }
+      ((c.win.take m).take run ++ r.1, r.2)
+
+def tagK (i : Nat) (l : List Int) : List (Nat × Int) := l.map (fun x => (i, x))
 
 /-- MIRROR of the loop of `ReadRows` (merge.go:865-949), `m = len(rows) - n`; one unit of fuel per
 iteration (a call needs at most `len(rows) + 2`). -/
@@ -86,14 +114,25 @@ def MK.loop : Nat → Nat → MK → (List (Nat × Int) × KRes) × MK
       match st.cur.win with
       | [] =>
         match st.cur.read with
-        | (.nil, c') => MK.loop f m (st.setBuf c').replay
-        | (.eof, c') => MK.loop f m ({ st.setBuf c' with winner := -1, count := st.count - 1 }).replay
+        | (.nil, c') =>
+          let st2 := (st.setBuf c').replay
+          MK.loop f m { st2 with streak := if st2.winner ≠ st.winner then 0 else st.streak }
+        | (.eof, c') =>
+          let st2 := ({ st.setBuf c' with winner := -1, count := st.count - 1 }).replay
+          MK.loop f m { st2 with streak := if st2.winner ≠ -1 then 0 else st.streak }
         | (.err, c') => (([], .err), st.setBuf c')
       | x :: w' =>
         let st' := st.setBuf { st.cur with win := w' }
         if w' = [] then (([(st.winner.toNat, x)], .nil), st')
+        else if 3 ≤ st.streak then
+          let e := runEmit st'.runBound m (m - 1) { st.cur with win := w' }
+          if e.2.2 = true then (((st.winner.toNat, x) :: tagK st.winner.toNat e.1, .nil), st.setBuf e.2.1)
+          else
+            let r := MK.loop f (m - 1 - e.1.length) ({ st.setBuf e.2.1 with streak := 0 }).replay
+            (((st.winner.toNat, x) :: (tagK st.winner.toNat e.1 ++ r.1.1), r.1.2), r.2)
         else
-          let r := MK.loop f (m - 1) st'.replay
+          let st2 := st'.replay
+          let r := MK.loop f (m - 1) { st2 with streak := if st2.winner = st.winner then st.streak + 1 else 0 }
           (((st.winner.toNat, x) :: r.1.1, r.1.2), r.2)
 
 def MK.fuel (st : MK) (cap : Nat) : Nat := 2 * cap + st.bufs.length + 4
@@ -180,6 +219,10 @@ theorem KInv.replay {st : MK} {srcs : List Src} {out : List (Nat × Int)} (h : K
     have := h.cnt hc
     simp only [MK.replay]
     rw [nn_perm hp]; exact this
+
+theorem KInv.streak {st : MK} {srcs : List Src} {out : List (Nat × Int)} (h : KInv st srcs out) (s : Nat) :
+    KInv { st with streak := s } srcs out :=
+  ⟨h.len, h.rows, h.bites, h.done, h.mem, h.cnt⟩
 
 theorem getD_set_eq {bufs : List Buf} {w : Nat} (c : Buf) (hw : w < bufs.length) :
     (bufs.set w c).getD w dbuf = c := by
